@@ -10,6 +10,7 @@ package index
 import (
 	"bytes"
 	"context"
+	"encoding/binary"
 	"fmt"
 	"io/fs"
 
@@ -277,4 +278,48 @@ func VerifTOCStart(data []byte) int {
 		panic(err)
 	}
 	return int(toc.off)
+}
+
+// VerifTOCFields: the file positions of the 4-byte big-endian offset and size fields of every
+// section entry in the (valid) shard's table of contents (compound sections contribute their data
+// and index entries), found by locating each entry's (off, sz) pair in the TOC bytes. The two JSON
+// metadata sections are left out (their decoding is a token model in the engine).
+func VerifTOCFields(data []byte) []int {
+	r := &reader{r: verifFile(data, "layout.zoekt")}
+	var toc indexTOC
+	if err := r.readTOC(&toc); err != nil {
+		panic(err)
+	}
+	start := VerifTOCStart(data)
+	var out []int
+	find := func(s simpleSection) {
+		if s.sz == 0 {
+			return
+		}
+		var pat [8]byte
+		binary.BigEndian.PutUint32(pat[0:], s.off)
+		binary.BigEndian.PutUint32(pat[4:], s.sz)
+		for i := start; i+8 <= len(data)-8; i++ {
+			if string(data[i:i+8]) == string(pat[:]) {
+				out = append(out, i, i+4)
+				return
+			}
+		}
+	}
+	for _, ent := range toc.sectionsTaggedList() {
+		if ent.tag == "metaData" || ent.tag == "repoMetaData" {
+			continue
+		}
+		switch s := ent.sec.(type) {
+		case *simpleSection:
+			find(*s)
+		case *compoundSection:
+			find(s.data)
+			find(s.index)
+		case *lazyCompoundSection:
+			find(s.data)
+			find(s.index)
+		}
+	}
+	return out
 }
